@@ -148,6 +148,10 @@ func checkC11(c *Ctx) {
 	c.Expect("C11-R7", 1)
 	c.Rule("C11-R8", "the charset registration table pairs every name with the encoding object of the same name (typed text is decoded with the registered object)")
 	c.Expect("C11-R8", 25)
+	c.Rule("C11-R11", "the escape timer is re-armed only after a Stop whose 'already fired' answer drains the tick (a stale tick expires a half-received character into raw bytes)")
+	c.Expect("C11-R11", 2)
+	c.Rule("C11-R10", "the decoder is chosen by the locale's codeset: LC_ALL, LC_CTYPE, LANG in that order; only the bare names C and POSIX mean US-ASCII (C.UTF-8 is UTF-8); no codeset means UTF-8")
+	c.Expect("C11-R10", 3)
 	c.Rule("C11-R9", "the key matcher's 'partial' answer accumulates over the key table (paste brackets split across reads are still recognised)")
 	c.Expect("C11-R9", 1)
 	c.Rule("C11-R5", "an input chunk queued for the parser goroutine owns its backing array (allocated per chunk)")
@@ -172,6 +176,8 @@ func checkC11(c *Ctx) {
 	checkChunkOwnership(c, p, "C11-R5")
 	checkRawInputNotUTF8(c, p, pr, "C11-R6")
 	charsetTableRule(c, p, "C11-R8")
+	checkTimerDiscipline(c, p, "C11-R11")
+	c.asRule("C17-R4", "C11-R10", func() { c17Charset(c, p) })
 	for _, pi := range inputParsers(p) {
 		if pi.fn.Name() == "parseFunctionKey" {
 			c02PartialAccumulates(c, p, pi, "C11-R9")
